@@ -271,7 +271,7 @@ let () =
               if (only = 1 && !mode = Hex) || (only = 2 && !mode = Tet) then failwith ("operation not available for this mesh kind: " ^ e);
               let res = (match !mode with
                          | Tet -> (match tet_step !st t with TOk (s', r) -> `Ok (s', r) | TRejected -> `Rej | TUB -> `UB)
-                         | Hex -> (match hex_step !st h with HROk (s', r) -> `Ok (s', r) | HRRejected -> `Rej | HRUB -> `UB)) in
+                         | Hex -> (match hex_step !st h with HROk (s', r) -> `Ok (s', r) | HRRejected -> `Rej)) in
               (match res with
                | `Rej -> pr "== %d %s -> Rejected\n" !lineno e; dump !st
                | `UB -> pr "== %d %s -> UB\n" !lineno e; dead := true
